@@ -1235,6 +1235,14 @@ hwloc__xml_import_distances(hwloc_topology_t topology,
     goto out;
   }
 
+  if (nbobjs > 0xffff) {
+    /* nbobjs*nbobjs below would wrap */
+    if (hwloc__xml_verbose())
+      fprintf(stderr, "%s: %s with too many objects %u\n",
+	      state->global->msgprefix, _TAG_NAME, nbobjs);
+    goto out;
+  }
+
   indexes = malloc(nbobjs*sizeof(*indexes));
   u64values = malloc(nbobjs*nbobjs*sizeof(*u64values));
   if (heterotypes)
